@@ -67,7 +67,23 @@ def run(tier, seed):
     rng3 = random.Random(seed * 1000003 + 1101)
     for i in range(150 if thorough else 45):
         scn = S.random_float_scenario(rng3, metric=FAMILY[i % 5], n=rng3.randrange(5, 13), nq=rng3.randrange(3, 8), lattice=False, mode=("prefile" if i % 3 else "metric"), classes=rng3.choice([2, 3, 4]), copies=False)
-        scn["Z"] = (__import__("numpy").array(scn["Z"]) * (0.01, 0.002, 0.0005)[i % 3]).tolist()
+        if i % 5 in (2, 3) and scn["mode"] == "prefile" or i % 15 == 12:
+            # integer-typed samples with a small coordinate range, through the distance file: Euclidean distances between them are
+            # irrational - the file holds them as they are
+            # (coordinates drawn until all squared distances among the rows are distinct: tie-free in every member of the family)
+            np_ = __import__("numpy")
+            r_ = np_.random.default_rng(rng3.randrange(2**31))
+            shape = np_.array(scn["Z"]).shape
+            for _ in range(400):
+                Zi = r_.integers(0, 90, size=shape)
+                d2 = ((Zi[:, None, :] - Zi[None, :, :]) ** 2).sum(-1)
+                vals = d2[np_.triu_indices(len(Zi), 1)]
+                if len(set(vals.tolist())) == len(vals) and vals.min() > 0:
+                    break
+            scn["Z"] = Zi.astype(float).tolist()
+            scn["present"] = "int"
+        else:
+            scn["Z"] = (__import__("numpy").array(scn["Z"]) * (0.01, 0.002, 0.0005)[i % 3]).tolist()
         scn["alt_modes"] = True
         items.append(scn)
     judged = []
